@@ -245,6 +245,24 @@ func main() {
 						add(sel.X.End(), int(x.End()-sel.X.End()), ")")
 						counts["lock"]++
 						sites = append(sites, siteInfo{s, "lock", ts + "." + sel.Sel.Name, p.PkgPath, enclosingFunc(x)})
+					case (ts == "sync.Pool" || ts == "*sync.Pool") && (sel.Sel.Name == "Get" || sel.Sel.Name == "Put"):
+						// a pool's choice of which object to hand back (per-P caches, emptied by the
+						// collector) goes behind the seam: simrt keeps one LIFO per pool, shared by all tasks
+						amp := "&"
+						if _, isPtr := rt.(*types.Pointer); isPtr {
+							amp = ""
+						}
+						s := site("pool", x.Pos())
+						if sel.Sel.Name == "Get" {
+							add(x.Pos(), 0, "simrt.PoolGet("+q(s)+", "+amp)
+							add(sel.X.End(), int(x.End()-sel.X.End()), ")")
+						} else {
+							add(x.Pos(), 0, "simrt.PoolPut("+q(s)+", "+amp)
+							add(sel.X.End(), int(x.Lparen+1-sel.X.End()), ", ")
+						}
+						counts["pool"]++
+						sites = append(sites, siteInfo{s, "pool", ts + "." + sel.Sel.Name, p.PkgPath, enclosingFunc(x)})
+						syncYield(x)
 					default:
 						// synchronisation the lock shims do not model
 						if strings.Contains(ts, "sync.Once") || strings.Contains(ts, "sync.Map") || strings.Contains(ts, "sync.WaitGroup") ||
